@@ -137,7 +137,7 @@ BUDGET = {
 }
 BOUNDS = {
     "quick": "3-state machine with guarded/fallback candidates, a custom constructor argument and attributes, a falsy (`__len__` == 0) model with callbacks, a custom state field, underscore-prefixed and name-mangled user attributes, events bound onto the model with bind_events_to (and driven through the model on either machine), value-based equality and a plain attribute used as a guard (set differently on original and clone after the copy), "
-    "one constructor listener and one listener attached later (providing a guard and an enter callback); options {rtc, allow_event_without_transition, "
+    "one constructor listener and one listener attached later with add_listener or the deprecated add_observer (providing a guard and an enter callback); allow_event_without_transition assigned after construction in two of the option sets; options {rtc, allow_event_without_transition, "
     "state_field, start_value} in 4 combinations; copy by copy.deepcopy and by pickle after a history of 0..2 events; then 2 further events distributed over "
     "original and clone in any interleaving, with symbolic guard values; an async-callback machine copied before and after its initial activation (also with a start_value), then driven.",
     "thorough": "3 further events after the copy; 2 on the async machine.",
@@ -169,11 +169,21 @@ def run(ctx, params):
         model = CopyModel()
         l0 = CopyListener("ctor")
         l1 = CopyListener("late")
-        kw = {"rtc": rtc, "allow_event_without_transition": allow, "state_field": field, "listeners": [l0], "tag": f"T{o}"}
+        # opts 0/1: the option is given the other way round to the constructor and assigned afterwards (public attribute)
+        kw = {"rtc": rtc, "allow_event_without_transition": (not allow) if o in (0, 1) else allow, "state_field": field, "listeners": [l0], "tag": f"T{o}"}
         if start_value:
             kw["start_value"] = VALUE_OF[start_value]
         sm = CopyMachine(model, **kw)
-        sm.add_listener(l1)
+        if o in (0, 1):
+            sm.allow_event_without_transition = allow
+        if o in (1, 3):
+            import warnings
+
+            with warnings.catch_warnings():
+                warnings.simplefilter("ignore", DeprecationWarning)
+                sm.add_observer(l1)  # the deprecated spelling of add_listener
+        else:
+            sm.add_listener(l1)
         if o in (0, 3):
             sm.bind_events_to(model)  # model.go() / model.back() now drive the machine
     cur = "b" if start_value else "a"
